@@ -1,7 +1,8 @@
 #!/bin/bash
-# Offline build of the Coq development (regenerates Gen/ from /repo first).
+# Offline build of the Coq development (regenerates Gen/ from the tree first).
 cd /verif
-export PYTHONPATH=/repo/pulser-core:/repo/pulser-simulation:/verif
+R="${VERIF_REPO:-/repo}"
+export PYTHONPATH="$R/pulser-core:$R/pulser-simulation:/verif"
 export PYTHONHASHSEED=0
 /venv/bin/python - <<'PY'
 import sys
